@@ -31,7 +31,7 @@ class ST1:
 
 # =========================================================================== C08: service tasks
 
-ACTIONS = ["cancel", "none", "sync_callable", "async_callable", "raising_callable", "raising_base_callable", "raising_async_callable"]
+ACTIONS = ["cancel", "none", "sync_callable", "async_callable", "raising_callable", "raising_base_callable", "raising_async_callable", "raising_cancelled_callable"]
 
 
 def gen_service_program(rng: Any, *, crash: bool = False) -> dict[str, Any]:
@@ -59,7 +59,7 @@ def gen_service_program(rng: Any, *, crash: bool = False) -> dict[str, Any]:
                     # how a callable teardown action is given: plain function, functools.partial, or an object with __call__
                     "action_form": rng.choice(["function", "function", "partial", "object", "unhashable_object", "builtin", "method_wrapper"]),
                     "func_form": rng.choice(["function", "function", "partial", "object", "unhashable_object", "lambda"]),
-                    "start_delay": 0}
+                    "start_delay": 0, "from_child": rng.random() < 0.15}
             if spec["started_value"] and rng.random() < 0.4:
                 spec["start_delay"] = 0.5  # the task takes a while before it reports itself started
             if action == "none" or rng.random() < 0.2:
@@ -87,7 +87,8 @@ def gen_service_program(rng: Any, *, crash: bool = False) -> dict[str, Any]:
             party.append(["sleep", rng.choice([0.25, 0.25, 0.75])])
             party.append(["resource", fresh()])
     prog = {"backend": rng.choice(["asyncio", "trio"]), "sched_seed": rng.randrange(1 << 30), "shuffle": rng.random() < 0.5,
-            "nested": rng.random() < 0.5, "steps": steps, "crash": None, "party": party, "in_component": rng.random() < 0.3}
+            "nested": rng.random() < 0.5, "steps": steps, "crash": None, "party": party, "in_component": rng.random() < 0.3,
+            "block_raises": (not crash) and rng.random() < 0.2}
     if crash:
         svc = [s for s in steps if s[0] == "service"]
         victim = rng.choice(svc)
@@ -122,9 +123,14 @@ def wrap_form(func: Any, form: str, takes_task_status: bool) -> Any:
     return func
 
 
+class BlockFailed(Exception):
+    """what the owner's block ends with in `block_raises` programs"""
+
+
 class ServiceRun:
     def __init__(self, prog: dict[str, Any]) -> None:
         self.prog = prog
+        self.from_child_starts = 0
         self.trace = Trace()
         self.t0 = 0.0
         self.boundary: BaseException | None = None
@@ -229,6 +235,16 @@ class ServiceRun:
             def teardown_action() -> None:
                 run.log("svc-action", sid)
                 raise RuntimeError("teardown action failed")
+        elif action == "raising_cancelled_callable":
+            # the action fails with the backend's cancellation exception although nobody cancelled the teardown (it awaited a
+            # helper task it had cancelled itself): one more BaseException, answered by cancelling the task
+            def teardown_action() -> None:
+                run.log("svc-action", sid)
+                if run.prog["backend"] == "asyncio":
+                    import asyncio
+
+                    raise asyncio.CancelledError("a helper task of the teardown action was cancelled")
+                raise KeyboardInterrupt("injected: the teardown action was interrupted")
         elif action == "raising_async_callable":
             # fails while it is being awaited: the task is cancelled instead, just as for a callable that raises when called
             async def teardown_action() -> None:  # type: ignore[misc]
@@ -306,6 +322,8 @@ class ServiceRun:
             else:
                 await self.owner_steps(ctx, registered)
         self.log("block-end", "owner")
+        if self.prog.get("block_raises"):
+            raise BlockFailed("the owner's block failed")  # the teardown that follows is an ordinary one, not a cancelled one
 
     async def owner_steps(self, ctx: Any, registered: list[int]) -> None:
         from asphalt.core import add_resource, add_teardown_callback, start_service_task
@@ -341,7 +359,16 @@ class ServiceRun:
                 self.log("svc-spawn", sid, visible_expected=sorted(f"r{r}" for r in registered))
                 # 'cancel' is the default teardown action: it is left out every other time
                 act_kw = {} if (action == "cancel" and sid % 3 != 0) else {"teardown_action": action}
-                if spec["spawn_via"] == "shortcut":
+                if spec.get("from_child"):
+                    # started on the owner *explicitly* while a short-lived child context (with a resource of its own) is the
+                    # current one: the task belongs to the owner, snapshots the owner, and is stopped by the owner's teardown
+                    from asphalt.core import Context
+
+                    async with Context() as tmp_ctx:
+                        tmp_ctx.add_resource(ST0(), f"tmp{sid}")
+                        val = await ctx.start_service_task(func, f"svc{sid}", **act_kw)
+                    self.from_child_starts += 1
+                elif spec["spawn_via"] == "shortcut":
                     val = await start_service_task(func, f"svc{sid}", **act_kw)
                 elif sid % 2:
                     val = await ctx.start_service_task(func=func, name=f"svc{sid}", **act_kw)  # all by keyword
@@ -438,7 +465,7 @@ def check_service(run: ServiceRun) -> tuple[list[dict[str, Any]], dict[str, int]
                                                   f"{describe_exc(run.root_boundary)}")
     else:
         if run.root_boundary is not None:
-            leaf_ok = all(type(x).__name__ in ("RuntimeError", "StopNow") for x in _leaves(run.root_boundary))
+            leaf_ok = all(type(x).__name__ in ("RuntimeError", "StopNow", "BlockFailed", "CancelledError") for x in _leaves(run.root_boundary))
             if not leaf_ok:
                 bad("service-unexpected-exception", f"leaving the context raised {describe_exc(run.root_boundary)}")
     root_left = next((e for e in ev if e["kind"] == "root-left"), None)
@@ -519,13 +546,13 @@ def check_service(run: ServiceRun) -> tuple[list[dict[str, Any]], dict[str, int]
             t = t + delay
         elif state == "cleanup":
             # the task stopped by itself and is cleaning up (unshielded): a cancelling finalizer interrupts that now
-            if action in ("cancel", "raising_callable", "raising_base_callable", "raising_async_callable"):
+            if action in ("cancel", "raising_callable", "raising_base_callable", "raising_async_callable", "raising_cancelled_callable"):
                 end = t
             else:
                 end = self_end + spec["cleanup"]
             t = max(t + delay, end)
         else:
-            if action in ("cancel", "raising_callable", "raising_base_callable", "raising_async_callable"):
+            if action in ("cancel", "raising_callable", "raising_base_callable", "raising_async_callable", "raising_cancelled_callable"):
                 stop_t, observe_cancel = t, True
             elif action == "none":
                 stop_t = self_end
@@ -599,6 +626,10 @@ def check_service(run: ServiceRun) -> tuple[list[dict[str, Any]], dict[str, int]
         inc("root_owner")
     if prog.get("in_component"):
         inc("registrations_made_from_a_component")
+    if prog.get("block_raises"):
+        inc("owner_blocks_ending_with_an_exception")
+    if run.from_child_starts:
+        inc("services_started_on_the_owner_while_a_child_context_was_current", run.from_child_starts)
     return V, c
 
 
@@ -672,6 +703,7 @@ def gen_factory_program(rng: Any) -> dict[str, Any]:
             "handler": handler, "cmds": cmds, "spawn_after_close": rng.choice([None, "start_task_soon", "start_task"]),
             # the factory is started in a context that holds no resource at all
             "handler_form": rng.choice(["function", "function", "falsy_object"]),
+            "block_raises": (not will_crash) and rng.random() < 0.2,
             "owner_empty": rng.random() < 0.3, "factory_via": rng.choice(["method", "method", "shortcut", "component"])}
 
 
@@ -925,6 +957,8 @@ class FactoryRun:
                         await checkpoint()
                 self.check_handles(f"after {cmd[0]}")
             self.log("block-end", "owner")
+            if prog.get("block_raises"):
+                raise BlockFailed("the owner's block failed")  # an ordinary teardown follows: running tasks are awaited all the same
 
         try:
             async with create_task_group() as outer:
@@ -935,10 +969,12 @@ class FactoryRun:
                 try:
                     async with Context() as root:
                         if prog["nested"]:
-                            async with Context() as ctx:
-                                await owner_block(ctx)
-                            self.log("left", "owner")
-                            self.check_handles("after owner left")
+                            try:
+                                async with Context() as ctx:
+                                    await owner_block(ctx)
+                            finally:
+                                self.log("left", "owner")
+                                self.check_handles("after owner left")
                         else:
                             await owner_block(root)
                 except BaseException as e:
@@ -1168,7 +1204,11 @@ def check_factory(run: FactoryRun) -> tuple[list[dict[str, Any]], dict[str, int]
     stray_handler = [x for x in run.handler_calls if not any(contains_same(x, run.raised[t]) for t in run.raised)]
     if stray_handler:
         bad("factory-handler-count", f"the exception handler was called with {describe_exc(stray_handler[0])}, which no task raised (cancellations must not reach it)")
-    if not fatal and run.root_boundary is not None:
+    if prog.get("block_raises") and not fatal:
+        inc("owner_blocks_ending_with_an_exception")
+        if not any(type(x).__name__ == "BlockFailed" for x in _leaves(run.root_boundary)) or len(_leaves(run.root_boundary)) != 1:
+            bad("factory-unexpected-exception", f"the owner's block raised BlockFailed; the root context raised {describe_exc(run.root_boundary)}")
+    elif not fatal and run.root_boundary is not None:
         bad("factory-unexpected-exception", f"the root context raised {describe_exc(run.root_boundary)} although every escaping exception was handled")
     # ---- teardown waits for running tasks
     left = next((e for e in ev if e["kind"] == "left"), None)
